@@ -129,6 +129,18 @@ pub fn u32_to_be_bytes(x: u32) -> (r: [u8; 4])
     ensures r[0] as int == x as int / 16777216, r[1] as int == (x as int / 65536) % 256, r[2] as int == (x as int / 256) % 256, r[3] as int == x as int % 256,
 { x.to_be_bytes() }
 
+/// byte i (0 = most significant) of a 32 bit number; opaque so that callers which only move the bytes around do not drag
+/// division terms into their proof context (reveal it where the numeric value matters)
+#[verifier::opaque]
+pub open spec fn b32(x: int, i: int) -> int {
+    if i == 0 { x / 16777216 } else if i == 1 { (x / 65536) % 256 } else if i == 2 { (x / 256) % 256 } else { x % 256 }
+}
+/// same function as `u32_to_be_bytes`, specified through the opaque `b32`
+#[verifier::external_body]
+pub fn u32_to_be_bytes_o(x: u32) -> (r: [u8; 4])
+    ensures r[0] as int == b32(x as int, 0), r[1] as int == b32(x as int, 1), r[2] as int == b32(x as int, 2), r[3] as int == b32(x as int, 3),
+{ x.to_be_bytes() }
+
 /// `u16::to_be` on a little-endian target: byte swap
 #[verifier::external_body]
 pub fn u16_to_be(x: u16) -> (r: u16)
